@@ -51,7 +51,7 @@ def isFloat : Val → Option Float
 
 /-- method sets of the harness types -/
 def methodsOf (ty : String) (isPtr : Bool) : List String :=
-  if ty = "S" then (if isPtr then ["Get", "Ptr"] else ["Get"]) else []
+  if ty = "S" then (if isPtr then ["Get", "Fail", "Ok", "Ptr"] else ["Get", "Fail", "Ok"]) else []
 
 inductive Look | found (v : Val) | absent | failed
 
@@ -372,6 +372,10 @@ def callFn (fns : List (String × FnSpec)) (fn : Val) (args : List Val) : CallRe
   | .meth "S" "Get" (.struct _ fs), [] => match fs.find? (·.1 = "A") with | some f => .results [f.2.2.2] none | none => .unsupported
   | .meth "S" "Get" (.ptr _ _ (some (.struct _ fs))), [] => match fs.find? (·.1 = "A") with | some f => .results [f.2.2.2] none | none => .unsupported
   | .meth "S" "Get" (.ptr _ _ none), [] => .notEntered     -- value method through nil pointer: reflect panics
+  | .meth "S" "Fail" (.struct _ fs), [] => match fs.find? (·.1 = "A") with | some f => .results [f.2.2.2, .nil] (some true) | none => .unsupported
+  | .meth "S" "Fail" (.ptr _ _ (some (.struct _ fs))), [] => match fs.find? (·.1 = "A") with | some f => .results [f.2.2.2, .nil] (some true) | none => .unsupported
+  | .meth "S" "Ok" (.struct _ fs), [] => match fs.find? (·.1 = "A") with | some f => .results [f.2.2.2, .nil] (some false) | none => .unsupported
+  | .meth "S" "Ok" (.ptr _ _ (some (.struct _ fs))), [] => match fs.find? (·.1 = "A") with | some f => .results [f.2.2.2, .nil] (some false) | none => .unsupported
   | .meth "S" "Ptr" (.ptr _ _ (some (.struct _ fs))), [] =>
     match fs.find? (·.1 = "A") with
     | some (_, _, _, .int k v) => .results [.int k (v + 1)] none
@@ -635,14 +639,16 @@ partial def eval (fns : List (String × FnSpec)) (data : List Val) : E → M Val
         | some (.slice _ xs _) => vs := vs.dropLast ++ xs
         | _ => return ← setErr
       let nm := match pv with | .func id => id | .meth _ n _ => n | _ => "?"
+      -- only user functions placed in the data log their calls (methods of the harness types do not)
+      let isUserFn := match pv with | .func id => !id.startsWith "builtin:" | _ => false
       match callFn fns pv vs with
       | .unsupported => unsupp
       | .notEntered => setErr
       | .panicInside =>
-        if !nm.startsWith "builtin:" then logCall nm
+        if isUserFn then logCall nm
         setErr
       | .results rs second =>
-        if !nm.startsWith "builtin:" then logCall nm
+        if isUserFn then logCall nm
         match rs, second with
         | [r], none => return r
         | [_, _], none => setErr
